@@ -15,7 +15,8 @@ def make_replay(prop, monitor_classes, weights, driver_kw=None):
             storedrv.run({"backend": cfg["backend"], "seed": cfg["seed"] // 1000, "steps": cfg["steps"], "histories": cfg["seed"] % 1000 + 1}, res, prop)
         else:
             histrun.run_history({"fe": cfg["fe"], "prefix": cfg["prefix"], "seed": cfg["seed"] // 1000, "steps": cfg["steps"], "histories": cfg["seed"] % 1000 + 1,
-                                 "bare": cfg.get("bare", True)}, monitor_classes, res, weights=weights, driver_kw=driver_kw)
+                                 "bare": cfg.get("bare", True), "autocreate": cfg.get("autocreate", "autocreate")}, monitor_classes, res,
+                                weights=dict(weights or {}, **cfg.get("weights", {})), driver_kw=driver_kw)
         for v in res.violations:
             print("VIOLATION property=%s replay=%s" % (prop, path))
             print("  sig=%s :: %s" % (v["sig"], v["msg"][:300]))
